@@ -396,3 +396,63 @@ Proof.
   cbv zeta. split; [unfold ipv4_wf; cbn; lia|]. split; [cbn; unfold tcp_wf; cbn; lia|].
   split; [unfold slice_len_ok; rewrite pow63; lia|]. split; vm_compute; reflexivity.
 Qed.
+
+(* ==== round3 smalls begin ==== *)
+(* Round 3: PacketBuilder size() (final_size) without the hypothesis "the sum fits usize" of
+   C14_build_size.  Lemmas: Limits/BuildSize.v (about the existing model `build_size`). *)
+From EP Require Import Limits.BuildSize.
+
+(* for ALL arguments: Ok s exactly when s is the mathematical sum and the sum is below 2^64
+   (usize of a 64-bit target); otherwise -- and only then -- a debug overflow panic of one of the
+   three additions (sites 193..195 of Limits/Model.v); never an Err *)
+Theorem C14_build_size_exact : forall lv net t v,
+  let sum := lv + net + transport_header_len t + v in
+  (forall s, build_size lv net t v = Ok s <-> s = sum /\ sum < 2 ^ 64) /\
+  (2 ^ 64 <= sum <->
+     exists site, build_size lv net t v = Panic site /\ (site = 193 \/ site = 194 \/ site = 195)) /\
+  (forall e, build_size lv net t v <> Err e).
+Proof. exact build_size_exact. Qed.
+Print Assumptions C14_build_size_exact.
+
+(* under the bounds the Rust types give -- link + vlan and network header lengths are sums of a few
+   u8-derived sizes (far below 2^32), TCP options <= 40 / ICMPv4 header <= 20 (transport_wf), a
+   slice length is below 2^63 (slice_len_ok) -- the sum always fits: size() never overflows *)
+Theorem C14_build_size_total : forall lv net t v,
+  lv < 2 ^ 32 -> net < 2 ^ 32 -> transport_wf t -> slice_len_ok v ->
+  build_size lv net t v = Ok (lv + net + transport_header_len t + v).
+Proof. exact build_size_bounds. Qed.
+Print Assumptions C14_build_size_total.
+
+(* the same with the network part spelled out as in final_size: IPv4 header_len() + extensions
+   header_len(), resp. Ipv6Header::LEN + extensions header_len(), of well-formed header values;
+   link header (Ethernet II 14 / Linux SLL 16) + VLAN (0 / 4 / 8) is at most 24 *)
+Theorem C14_build_size_ipv4 : forall lv ip x t v,
+  lv <= 24 -> ipv4_wf ip -> v4exts_wf x -> transport_wf t -> slice_len_ok v ->
+  build_size lv (ipv4_header_len ip + v4exts_header_len x) t v =
+    Ok (lv + (ipv4_header_len ip + v4exts_header_len x) + transport_header_len t + v).
+Proof. exact build_size_ipv4. Qed.
+Print Assumptions C14_build_size_ipv4.
+
+Theorem C14_build_size_ipv6 : forall lv x t v,
+  lv <= 24 -> v6exts_wf x -> transport_wf t -> slice_len_ok v ->
+  build_size lv (40 + v6exts_header_len x) t v =
+    Ok (lv + (40 + v6exts_header_len x) + transport_header_len t + v).
+Proof. exact build_size_ipv6. Qed.
+Print Assumptions C14_build_size_ipv6.
+
+(* non-vacuity: the largest slice length with full-size headers fits; the open case (only
+   reachable with a payload_size argument that is no slice length) panics *)
+Example C14_ex_build_size :
+  let ip := {| v4_total_len := 0; v4_opt_len := 40; v4_rest := 1 |} in
+  let t := TTcp {| t_opt_len := 40; t_rest := 0 |} in
+  ipv4_wf ip /\ v4exts_wf (Some 254) /\ transport_wf t /\ slice_len_ok 9223372036854775807 /\
+  build_size 22 (ipv4_header_len ip + v4exts_header_len (Some 254)) t 9223372036854775807
+    = Ok 9223372036854776977 /\
+  build_size 14 20 TUdp 18446744073709551615 = Panic 195 /\
+  build_size 14 20 TUdp 18446744073709551573 = Ok 18446744073709551615.
+Proof.
+  cbv zeta. split; [unfold ipv4_wf; cbn; lia|]. split; [cbn; unfold o8; cbn; lia|].
+  split; [cbn; unfold tcp_wf; cbn; lia|].
+  split; [unfold slice_len_ok; rewrite pow63; lia|]. repeat split; vm_compute; reflexivity.
+Qed.
+(* ==== round3 smalls end ==== *)
